@@ -240,6 +240,13 @@ func (s *state) renderBlock(blk *parse.BlockNode) (string, error) {
 func (s *state) walk(node parse.Node) error {
 	switch node := node.(type) {
 	case *parse.ModuleNode:
+		// Macros are definitions of the template: _self.name() may be written
+		// before the macro tag.
+		for _, c := range node.BodyNode.All() {
+			if m, ok := c.(*parse.MacroNode); ok {
+				s.localMacros[m.Name] = m
+			}
+		}
 		if p := node.Parent; p != nil {
 			tplName, err := s.evalExpr(p.Tpl)
 			if err != nil {
